@@ -43,6 +43,7 @@ func replayCheck(args []string) (any, error) {
 		sum.Evaluations++
 		sum.Distinct++
 		text := ps.Scripts[ps.Main]
+		disturbChecker()
 		var lerr error
 		if ps.V2 {
 			tbl := v2Table(&runObs{})
